@@ -270,8 +270,14 @@ class AsyncTask(futures.FutureBase):
             # when there is no _task it means that this is the bottommost level of the async
             # task. We must attach the traceback as soon as possible
             if not hasattr(error, "_task"):
-                error._task = self
-                core_errors.prepare_for_reraise(error)
+                try:
+                    error._task = self
+                    core_errors.prepare_for_reraise(error)
+                except Exception:
+                    # an exception object that does not take new attributes (a frozen
+                    # dataclass, a restrictive __setattr__) travels without the async
+                    # traceback; it is still delivered like any other
+                    pass
             else:
                 # when we already have the _task on the error, it means that
                 # some child generator of ours had an error.
@@ -410,7 +416,10 @@ class AsyncTask(futures.FutureBase):
                 ctx.pause()
             except BaseException as e:
                 error = e
-                core_errors.prepare_for_reraise(error)
+                try:
+                    core_errors.prepare_for_reraise(error)
+                except Exception:
+                    pass  # see _accept_error
         if error is not None:
             self._accept_error(error)
 
@@ -427,7 +436,10 @@ class AsyncTask(futures.FutureBase):
             except BaseException as e:
                 if error is None:
                     error = e
-                    core_errors.prepare_for_reraise(error)
+                    try:
+                        core_errors.prepare_for_reraise(error)
+                    except Exception:
+                        pass  # see _accept_error
         if error is not None:
             self._accept_error(error)
 
